@@ -141,6 +141,34 @@ std::string handle(const std::string& op, Args& a)
 			Matrix m = Round(Matrix(std::vector<std::vector<double>>{xs}), d);
 			for(unsigned j = 0; j < m.Columns(); j++)
 				o << m[0][j];
+			// rounding the rounded vector / matrix again (idempotence of the overloads, bit for bit)
+			Vector v2 = Round(v, d);
+			for(unsigned i = 0; i < v2.Size(); i++)
+				o << v2[i];
+			Matrix m2 = Round(m, d);
+			for(unsigned j = 0; j < m2.Columns(); j++)
+				o << m2[0][j];
+		});
+	}
+	if(op == "c17.roundscan")
+	{
+		// carries: x = sign * 10^e * (1 - u * 10^-d), u = 0.6 (k + off) / n in (0, 0.6]; returns x, Round(x), Round(-x), Round(Round(x))
+		unsigned d = a.u64();
+		int e	   = a.i64();
+		unsigned n = a.u64();
+		double off = a.dbl();
+		int sign   = a.i64();
+		a.end();
+		if(d < 1 || d > 7)
+			throw BadArgs("digits");
+		return run([&](Out& o) {
+			for(unsigned k = 0; k < n; k++)
+			{
+				double u = 0.6 * (k + off) / n;
+				double x = sign * std::pow(10.0, e) * (1.0 - u * std::pow(10.0, -(double) d));
+				double r = Round(x, d);
+				o << x << r << Round(-x, d) << Round(r, d);
+			}
 		});
 	}
 	if(op == "c17.dawson")
